@@ -43,6 +43,9 @@ EXTRAS_T = ([], [("p", 2)], [("p", 2), ("q", 2)], [("p", 3), ("q", 2)])
 TOL = 1e-12
 
 
+VIAS = ("ctor", "set_prms", "reparam", "positional", "attrs", "copy-reparam", "used")
+
+
 def shape_pairs(extra, tier):
     """(shape of first parameter, shape of second parameter)"""
     letters = ["t"] + [l for l, _ in extra]
@@ -154,7 +157,7 @@ def run_unit(u):
         for shapes2 in shape_pairs(extra, tier):
             for quad in quads(tier):
                 k += 1
-                vias = ("ctor", "set_prms", "reparam", "positional") if tier == "thorough" and quad[1] in (1, 4) else (("ctor", "set_prms", "reparam", "positional")[k % 4],)
+                vias = VIAS if tier == "thorough" and quad[1] in (1, 4) else (VIAS[k % 4], VIAS[4 + k % 3])
                 if tier == "thorough" and len(extra) == 2 and quad[1] not in (1, 2, 5, 10):
                     continue
                 for via in vias:
